@@ -17,6 +17,17 @@ BASES = {
     "r1": ("refuse", "accept"),
     "r3": ("refuse", "refuse", "refuse", "accept"),
 }
+def sp_wfail_sync(sess):
+    """the next write fails in write() itself (RuntimeError) while the read side of the link stays healthy: the reconnection then
+    starts from send()'s failure handler, with the old receive loop still alive"""
+    if sess.gw.fail_write_armed:
+        return False
+    sess.gw.write_error_sync = True
+    sess.gw.write_error = lambda: RuntimeError("unable to perform operation on the transport (injected, write only)")
+    sess.gw.fail_write_armed = True
+    return True
+
+
 SPECIALS = {
     "close": sp_close,
     "close2": sp_close,
@@ -24,6 +35,7 @@ SPECIALS = {
     "reset": sp_reset,
     "send": sp_send(lambda: clientkit.heading_message(55)),
     "connect2": sp_connect,
+    "wfail_sync": sp_wfail_sync,
 }
 
 
@@ -80,7 +92,10 @@ def judge(sess, o):
         out.append(("connect_after_close", {}, f"{len(sess.gw.attempts) - n_at} connection attempt(s) started after close() was entered"))
     # the client's current link is its latest connection: a gateway that has only half-closed it (EOF) has not shut it;
     # older connections the gateway ended are not 'the link' any more
-    open_conns = [c.cid for c in sess.gw.conns if not (c.closed_by_client or c.lost or c.reset or (c.eof_sent and c is not sess.gw.conns[-1]))]
+    # (a connection on which a write was made to fail is dead as far as the link is concerned, even where the injected failure
+    # left its read side up)
+    open_conns = [c.cid for c in sess.gw.conns if not (c.closed_by_client or c.lost or c.reset or c.write_failed_at is not None
+                                                       or (c.eof_sent and c is not sess.gw.conns[-1]))]
     if open_conns:
         out.append(("connection_left_open", {}, f"connections {open_conns} never closed by the client"))
     still = [x for x in o.marks.get("open_at_close_return", []) if x]
@@ -160,6 +175,12 @@ def plan(ctx):
             else:
                 tasks.append((kind, "r1", mode, 2, ["close", "close2", "reset", "connect2", "send"] if mode != "ok" else all_names))
                 tasks.append((kind, "r0", mode, 1, ["close"]))
+    for kind in ("ebyte", "yd", "waveshare"):
+        # close() around a reconnection that was started by a failing write (the old receive loop is still running then)
+        tasks.append((kind, "r0", "ok", 2, ["close", "wfail_sync"]))
+        if ctx.thorough:
+            tasks.append((kind, "r0", "slow", 2, ["close", "wfail_sync"]))
+            tasks.append((kind, "r1", "ok", 3, ["close", "wfail_sync", "send"]))
     for kind in ("ebyte", "yd", "waveshare"):
         # close() while a send() is suspended in drain() under back-pressure, then the link fails
         tasks.append((kind, "r0", "ok", 2, ["close", "reset", "eof", "send"], "ok", True))
